@@ -160,6 +160,8 @@ def bar (xs : List (List String)) : List String :=
     `c16 run <n> <coll> <[a-docs, b-docs, c-docs]> <pipeline>`
         → res_1 | … | res_n | pipe_1 | … | pipe_n | a | b | c
     `c16 proc <coll> <[…]> <prefix> <pipeline>` → the sub-pipeline alone on the prefix's output
+    `c16 stagein <coll> <[…]> <prefix> <pipeline>` → the same, and the sub-pipeline's INPUT (kept
+        alive on the stack, as `$facet` keeps it) as it is afterwards:  res | input
     `c16 table` → the reference discipline -/
 def handle (ts : List String) : Option (List String) :=
   match ts with
@@ -174,6 +176,24 @@ def handle (ts : List String) : Option (List String) :=
           ["a", "b", "c"].map (fun c => showVals ((toVals (getColl c out.2.2.colls)).map zeroOids))))
       | _ => some ["?parse"]
     | _, _ => some ["?parse"]
+  | "c16" :: "stagein" :: coll :: r =>
+    match parseVal r with
+    | some (.arr colls, r') =>
+      match parseVal r' with
+      | some (.arr pre, r'') =>
+        match parseVal r'' with
+        | some (.arr sub, []) =>
+          let s := mkState colls (.arr (pre ++ sub))
+          let stages := parsePipe s.pipe
+          let a := runStagesW Disc.reference Sem.std (s.world Disc.reference coll) (stages.take pre.length)
+          match a.2 with
+          | some e => some (showErr e)
+          | none =>
+            let b := runStagesW Disc.reference Sem.std { a.1 with stack := [a.1.work] } (stages.drop pre.length)
+            some (bar [showRes b.1 b.2, showVals ((toVals (b.1.stack.headD [])).map zeroOids)])
+        | _ => some ["?parse"]
+      | _ => some ["?parse"]
+    | _ => some ["?parse"]
   | "c16" :: "proc" :: coll :: r =>
     match parseVal r with
     | some (.arr colls, r') =>
